@@ -51,14 +51,19 @@ def run(tier, seed, rep):
         for E in defs:
             n_en = sum(1 for v in E["variants"] if not v["dis"])
             files[E["id"]] = IG.table_module(E, sz["depth"](n_en) if n_en <= 8 else 1, sz["steps"])
-        exe, failed = pipe.build_corpus("c10", files)
-        report_compile_failures(rep, failed, by_id, files, "EnumTable")
-        evs = pipe.run_driver(exe, PROP, {}, seed)
-        groups = pipe.group_by_def(by_id, evs)
-        mism = pipe.validate_groups("Trace_Table", groups, PROP, rep, shard_bytes=2_500_000, canary=canary, par=8)
-        for ev, d, text in mism:
-            rep.violation(dict(kind="table_mismatch", call=ev.get("call")), "table call is not a step of the total-map model: " + text[:400],
-                          dict(definition=d, event=ev, tlc=text, files={"def.rs": files.get(d["id"], "") if d else ""}))
+        evs = []
+        for release in (False, True):          # both profiles: "panics" must not be a debug assertion
+            exe, failed = pipe.build_corpus("c10", files, release=release)
+            if not release:
+                report_compile_failures(rep, failed, by_id, files, "EnumTable")
+            evs1 = pipe.run_driver(exe, PROP + ("r" if release else "d"), {}, seed)
+            evs += evs1
+            groups = pipe.group_by_def(by_id, evs1)
+            mism = pipe.validate_groups("Trace_Table", groups, PROP + ("r" if release else "d"), rep, shard_bytes=2_500_000, canary=canary, par=8)
+            for ev, d, text in mism:
+                rep.violation(dict(kind="table_mismatch", call=ev.get("call"), profile="release" if release else "dev"),
+                              "table call is not a step of the total-map model: " + text[:400],
+                              dict(definition=d, event=ev, tlc=text, files={"def.rs": files.get(d["id"], "") if d else ""}))
         name, res, consts = mc.result()
         rep.add_model(name, res, consts)
     evs = [e for e in evs if e.get("op") == "tb"]      # statistics only (panic and alias events were judged by TLC above)
